@@ -551,7 +551,7 @@ var (
 	groupFilters = S{
 		ssD.FilterAutoTx, ssD.FilterCanceledTx, ssD.FilterEmptyTx,
 		ssD.FilterHealth, ssD.FilterOutGroup, ssD.FilterQueuedTx,
-		ssD.FilterAutoCanceledTx,
+		ssD.FilterAutoCanceledTx, ssD.FilterChecks,
 	}
 	ssD = am.NewStates(DebuggerStatesDef{})
 	sgD = am.NewStateGroups(DebuggerGroupsDef{
